@@ -1005,9 +1005,12 @@ impl<T: Serialize + for<'de> Deserialize<'de> + Clone + PartialEq + Send + Sync 
                 format!("Failed to open WAL file: {e}").into(),
             ))
         })?;
+        let file_len = file.metadata().map(|m| m.len()).unwrap_or(0);
 
         let mut entries_recovered = 0u64;
         let mut buffer = Vec::new();
+        // End of the last completely framed record
+        let mut framed_end = 0u64;
 
         loop {
             // Read entry size
@@ -1019,6 +1022,19 @@ impl<T: Serialize + for<'de> Deserialize<'de> + Clone + PartialEq + Send + Sync 
             }
 
             let entry_size = u32::from_le_bytes(size_bytes) as usize;
+
+            // A record cannot be longer than what is left of the file. Checking first
+            // keeps a garbage length prefix from sizing a multi-gigabyte buffer.
+            if entry_size as u64 > file_len.saturating_sub(framed_end + 4) {
+                stats.corruption_events.push(CorruptionEvent {
+                    file_path: path.to_path_buf(),
+                    corruption_type: CorruptionType::IncompleteWrite,
+                    offset: framed_end,
+                    recovery_action: RecoveryAction::Skipped,
+                });
+                stats.entries_failed += 1;
+                break;
+            }
 
             // Read entry data
             buffer.resize(entry_size, 0);
@@ -1032,9 +1048,10 @@ impl<T: Serialize + for<'de> Deserialize<'de> + Clone + PartialEq + Send + Sync 
                         recovery_action: RecoveryAction::Skipped,
                     });
                     stats.entries_failed += 1;
-                    continue;
+                    break;
                 }
             }
+            framed_end += 4 + entry_size as u64;
 
             // Deserialize entry
             let entry: WalEntry = match postcard::from_bytes(&buffer) {
